@@ -144,6 +144,18 @@ var specs = map[string]spec{
 		},
 		Assumptions: commonAssumptions, Plain: true, QuickStride: 1, ThoroughStride: 3, QuickDeadline: 420, ThoroughDeadline: 3000, OrderSensitive: true,
 	},
+	"C13": {
+		LevelText: "for every generated 3-file bundle (pairs of 12 feature snippets that make the compiler iterate maps or collect sets, with 0-3 independent injected errors) the whole pipeline - compile, message ids, render with and without a reordering message bundle, JavaScript generation for every file under ES5/ES6 with and without messages - is executed under every Go map iteration order reachable within the deviation bound (map order is an explorer choice point) and under all 6 file insertion orders; all observations must agree, except which independent error is reported",
+		LevelNote: "map orders are explored up to 2 non-canonical positions for the first insertion order and 1 for the others (3/2 thorough); the plain build repeats each configuration 6 times under Go's own randomisation",
+		Technique: "stateless model checking over map-iteration choice points (deviation-bounded DFS) x exhaustive file-order permutations",
+		Level:     "model_checking",
+		Rule:      "a state is a bundle (snippet pair x injected errors); transitions = pipeline executions under distinct map orders and insertion orders (counter map_orders_explored); every case is non-trivial",
+		Bounds: map[string]string{
+			"quick":    "78 snippet pairs without errors + adjacent pairs x 7 error sets; 6 insertion orders; map-order deviation bound 2/1",
+			"thorough": "all pairs x all error sets; deviation bound 3/2",
+		},
+		Assumptions: commonAssumptions, Plain: true, QuickStride: 1, ThoroughStride: 1, QuickDeadline: 420, ThoroughDeadline: 3000, OrderSensitive: true,
+	},
 	"C05": {
 		LevelText: "bounded exhaustive exploration of the real parser: every input of the stated small scopes is parsed under a controlled scheduler with a deterministic linear fuel bound (no wall clock), and small inputs under every parser/scanner interleaving up to 2 preemptions; termination, no panic, no deadlock and tree-xor-error are checked on every execution and every case is replayed on the uninstrumented build",
 		LevelNote: "assumes the bounded scopes are representative (small-scope hypothesis) and that the overlay instrumentation preserves behaviour (cross-checked case by case against the plain build)",
